@@ -1827,6 +1827,43 @@ class TaskDispatcher(object):
                         )
 
 
+                elif not async_child and correlation_id == child_execution_arn:
+                    """
+                    The Task has been re-entered after a restart and its child
+                    was launched before. The child's own redelivered events may
+                    have been handled before this one, in which case the child
+                    has already ended and found no pending request to complete:
+                    nothing would ever call handle_sfn_response() for it again
+                    and the Task would wait until it times out. If the child's
+                    execution record says that it has ended complete the Task
+                    from that record now (only STANDARD children have one).
+                    """
+                    executions = self.state_engine.executions
+                    if child_execution_arn in executions:
+                        child_detail = executions[child_execution_arn]
+                        status = child_detail.get("status")
+                        if status == "SUCCEEDED" or status == "FAILED":
+                            def loads(text):
+                                try:
+                                    return json.loads(text) if isinstance(text, str) else text
+                                except ValueError:
+                                    return text
+
+                            if status == "SUCCEEDED":
+                                child_output = loads(child_detail.get("output"))
+                            else:
+                                child_output = {
+                                    "Error": child_detail.get("error"),
+                                    "Cause": child_detail.get("cause"),
+                                }
+                            self.handle_sfn_response(
+                                correlation_id,
+                                loads(child_detail.get("input")),
+                                child_output,
+                                child_detail
+                            )
+                            return
+
                 """
                 For "fire and forget"/async child executions we trigger the
                 Task state on_response() handler immediately with the result.
